@@ -1,2 +1,509 @@
+(* C38 — lemmas.
+     1. attribute names and tokens: check_attr = attr_name_valid, Iter::parse_attr = parse_attr of attr.c
+     2. the macro table: overwriting in reading order = determine_macros (first definition found from the top)
+     3. fill_attributes (explicit stack) = fill_one/macroexpand_one (recursion): simulation, monotonicity,
+        termination of both with the fuel the executable definitions use
+     4. one pattern list, the whole stack, matching_attributes = git_attrs *)
+From Coq Require Import Lia Arith.
 From GixV.Base Require Import Bytes BytesFacts.
 From GixV.C38 Require Import Glob Model Spec.
+
+(* ---- 1. names and tokens ------------------------------------------------------------------------------ *)
+Lemma name_byte_is_gits : forall b, Bool.eqb (name_byte b) (g_name_char b) = true.
+Proof. apply forall_bytes. vm_compute. reflexivity. Qed.
+
+Lemma name_byte_eq b : name_byte b = g_name_char b.
+Proof. apply Bool.eqb_prop. apply name_byte_is_gits. Qed.
+
+Lemma forallb_name l : forallb name_byte l = forallb g_name_char l.
+Proof. induction l as [|b l IH]; [reflexivity|]. cbn [forallb]. now rewrite IH, name_byte_eq. Qed.
+
+Lemma attr_valid_is_gits n : attr_valid n = g_attr_name_valid n.
+Proof.
+  destruct n as [|c r]; [reflexivity|]. unfold attr_valid, g_attr_name_valid.
+  rewrite forallb_name. destruct (beqb c cDASH); reflexivity.
+Qed.
+
+Lemma split_eq_strchr tok :
+  split_eq tok = match g_strchr_eq tok with Some (a, v) => (a, Some v) | None => (tok, None) end.
+Proof.
+  induction tok as [|c r IH]; [reflexivity|]. cbn [split_eq g_strchr_eq].
+  destruct (beqb c cEQ); [reflexivity|]. rewrite IH.
+  destruct (g_strchr_eq r) as [[a v]|]; reflexivity.
+Qed.
+
+Lemma parse_attr_is_gits tok : parse_attr tok = g_parse_attr tok.
+Proof.
+  unfold parse_attr, g_parse_attr. rewrite split_eq_strchr.
+  destruct (g_strchr_eq tok) as [[a v]|].
+  - destruct a as [|c r].
+    + reflexivity.
+    + destruct (beqb c cDASH) eqn:Ed; cbn [orb].
+      * rewrite attr_valid_is_gits. reflexivity.
+      * destruct (beqb c cBANG) eqn:Eb; rewrite attr_valid_is_gits; reflexivity.
+  - destruct tok as [|c r].
+    + reflexivity.
+    + destruct (beqb c cDASH) eqn:Ed; cbn [orb].
+      * rewrite attr_valid_is_gits. reflexivity.
+      * destruct (beqb c cBANG) eqn:Eb; rewrite attr_valid_is_gits; reflexivity.
+Qed.
+
+(* ---- 2. macro table ---------------------------------------------------------------------------------- *)
+Definition keyb (n : bytes) (e : bytes * list assignment) : bool := bytes_eqb (fst e) n.
+
+Lemma bytes_eqb_refl a : bytes_eqb a a = true.
+Proof. apply bytes_eqb_eq. reflexivity. Qed.
+
+Lemma bytes_eqb_trans_l k n m : bytes_eqb k n = true -> bytes_eqb k m = bytes_eqb n m.
+Proof. intros H. apply bytes_eqb_eq in H. now subst. Qed.
+
+Lemma lookup_set_same M n a : lookup (set_macro M n a) n = a.
+Proof.
+  induction M as [|[k v] M IH]; cbn [set_macro lookup].
+  - now rewrite bytes_eqb_refl.
+  - destruct (bytes_eqb k n) eqn:E; cbn [lookup]; rewrite E; [reflexivity | exact IH].
+Qed.
+
+Lemma lookup_set_other M n a m : bytes_eqb n m = false -> lookup (set_macro M n a) m = lookup M m.
+Proof.
+  intros Hne. induction M as [|[k v] M IH]; cbn [set_macro lookup].
+  - now rewrite Hne.
+  - destruct (bytes_eqb k n) eqn:E; cbn [lookup].
+    + rewrite (bytes_eqb_trans_l _ _ m E), Hne. reflexivity.
+    + destruct (bytes_eqb k m); [reflexivity | exact IH].
+Qed.
+
+Lemma find_app' {A} (f : A -> bool) l1 l2 :
+  find f (l1 ++ l2) = match find f l1 with Some x => Some x | None => find f l2 end.
+Proof. induction l1 as [|x l1 IH]; [reflexivity|]. cbn [app find]. destruct (f x); [reflexivity | exact IH]. Qed.
+
+(* the table after reading the definitions [defs] (in reading order) on top of [M] *)
+Definition set_all (M : mtable) (defs : list (bytes * list assignment)) : mtable :=
+  fold_left (fun M e => set_macro M (fst e) (snd e)) defs M.
+
+Lemma lookup_set_all defs : forall M n,
+  lookup (set_all M defs) n =
+  match find (keyb n) (rev defs) with Some e => snd e | None => lookup M n end.
+Proof.
+  induction defs as [|[k a] defs IH]; intros M n; [reflexivity|].
+  cbn [set_all fold_left fst snd]. fold (set_all (set_macro M k a) defs). rewrite IH.
+  cbn [rev]. rewrite find_app'.
+  destruct (find (keyb n) (rev defs)) as [e|]; [reflexivity|].
+  cbn [find keyb fst]. unfold keyb at 1. cbn [fst].
+  destruct (bytes_eqb k n) eqn:E.
+  - apply bytes_eqb_eq in E. subst. cbn [snd]. apply lookup_set_same.
+  - apply lookup_set_other. exact E.
+Qed.
+
+Lemma update_is_set_all ms : forall M, update_from_maps M ms = set_all M (macro_defs ms).
+Proof.
+  induction ms as [|m ms IH]; intros M; [reflexivity|].
+  unfold update_from_maps. cbn [fold_left]. fold (update_from_maps (match m with MMacro n a => set_macro M n a | MPat _ _ => M end) ms).
+  rewrite IH. destruct m as [n a|p a]; reflexivity.
+Qed.
+
+Lemma set_all_app M d1 d2 : set_all M (d1 ++ d2) = set_all (set_all M d1) d2.
+Proof. unfold set_all. apply fold_left_app. Qed.
+
+(* ---- 3. fill ------------------------------------------------------------------------------------------ *)
+Definition sub (o o' : filled) : Prop := forall n, is_filled o n = true -> is_filled o' n = true.
+
+Lemma sub_refl o : sub o o.
+Proof. intros n H. exact H. Qed.
+Lemma sub_trans a b c : sub a b -> sub b c -> sub a c.
+Proof. intros H1 H2 n H. apply H2, H1, H. Qed.
+Lemma is_filled_cons o n v m : is_filled ((n, v) :: o) m = bytes_eqb n m || is_filled o m.
+Proof. reflexivity. Qed.
+Lemma sub_cons o n v : sub o ((n, v) :: o).
+Proof. intros m H. rewrite is_filled_cons, H. apply Bool.orb_true_r. Qed.
+
+Lemma g_nil fuel gm o : g_fill_one fuel gm [] o = Some o.
+Proof. destruct fuel; reflexivity. Qed.
+Lemma g_cons fuel gm n v rest o :
+  g_fill_one fuel gm ((n, v) :: rest) o =
+  if is_filled o n then g_fill_one fuel gm rest o
+  else match (if is_set_state v then gm n else None) with
+       | Some macro =>
+           match fuel with
+           | O => None
+           | S f => match g_fill_one f gm (rev macro) ((n, v) :: o) with
+                    | Some o2 => g_fill_one fuel gm rest o2
+                    | None => None
+                    end
+           end
+       | None => g_fill_one fuel gm rest ((n, v) :: o)
+       end.
+Proof. destruct fuel; reflexivity. Qed.
+
+Lemma g_sub gm : forall fg l o o', g_fill_one fg gm l o = Some o' -> sub o o'.
+Proof.
+  intros fg. induction fg as [fg IHf] using lt_wf_ind.
+  intros l. induction l as [|[n v] l IHl]; intros o o' Hg.
+  - rewrite g_nil in Hg. injection Hg as <-. apply sub_refl.
+  - rewrite g_cons in Hg. destruct (is_filled o n).
+    + eapply IHl, Hg.
+    + destruct (if is_set_state v then gm n else None) as [macro|].
+      * destruct fg as [|f]; [discriminate|].
+        destruct (g_fill_one f gm (rev macro) ((n, v) :: o)) as [o2|] eqn:E2; [|discriminate].
+        eapply sub_trans; [apply sub_cons|]. eapply sub_trans; [eapply (IHf f); [lia | exact E2]|].
+        eapply IHl, Hg.
+      * eapply sub_trans; [apply sub_cons|]. eapply IHl, Hg.
+Qed.
+
+Lemma x_mono M : forall f s o r, x_run f M s o = Some r -> forall f', f <= f' -> x_run f' M s o = Some r.
+Proof.
+  induction f as [|f IH]; intros s o r H f' Hle; [discriminate|].
+  destruct f' as [|f']; [lia|]. cbn [x_run] in H |- *.
+  destruct s as [|[n v] rest]; [exact H|].
+  destruct (is_filled o n); [apply (IH _ _ _ H); lia|].
+  destruct (is_set_state v && negb (is_nil (lookup M n))); apply (IH _ _ _ H); lia.
+Qed.
+
+Lemma filter_rev {A} (P : A -> bool) l : rev (filter P l) = filter P (rev l).
+Proof.
+  induction l as [|x l IH]; [reflexivity|]. cbn [filter rev]. rewrite filter_app. cbn [filter].
+  destruct (P x); cbn [rev]; rewrite IH; [reflexivity | now rewrite app_nil_r].
+Qed.
+
+Section Fill.
+  Variable M : mtable.
+  Variable gm : bytes -> option (list assignment).
+  Hypothesis HM : forall n, lookup M n = match gm n with Some a => a | None => [] end.
+
+  Lemma x_step f n v rest o :
+    x_run (S f) M ((n, v) :: rest) o =
+    if is_filled o n then x_run f M rest o
+    else if is_set_state v && negb (is_nil (lookup M n))
+         then x_run f M (rev (filter (unfilled ((n, v) :: o)) (lookup M n)) ++ rest) ((n, v) :: o)
+         else x_run f M rest ((n, v) :: o).
+  Proof. reflexivity. Qed.
+
+  (* the recursion of git, run as the stack machine of gix: the items still to be visited are on the stack,
+     filtered by an older state [op] of the slots *)
+  Lemma sim : forall fg l o o', g_fill_one fg gm l o = Some o' ->
+    forall op rest, sub op o ->
+    exists k, forall f r, x_run f M rest o' = Some r ->
+                          x_run (k + f) M (filter (unfilled op) l ++ rest) o = Some r.
+  Proof.
+    intros fg. induction fg as [fg IHf] using lt_wf_ind.
+    intros l. induction l as [|[n v] l IHl]; intros o o' Hg op rest Hsub.
+    - rewrite g_nil in Hg. injection Hg as <-. exists O. intros f r H. exact H.
+    - rewrite g_cons in Hg. cbn [filter]. unfold unfilled at 1. cbn [fst].
+      destruct (is_filled o n) eqn:Eo.
+      + destruct (IHl _ _ Hg op rest Hsub) as [k Hk].
+        destruct (is_filled op n); cbn [negb].
+        * exists k. exact Hk.
+        * exists (S k). intros f r H. change (S k + f) with (S (k + f)). cbn [app].
+          rewrite x_step, Eo. apply Hk, H.
+      + assert (Eop : is_filled op n = false).
+        { destruct (is_filled op n) eqn:E; [|reflexivity]. apply Hsub in E. congruence. }
+        rewrite Eop. cbn [negb app].
+        pose proof (HM n) as Hn.
+        destruct (is_set_state v) eqn:Ev; cbn [andb].
+        * destruct (gm n) as [macro|] eqn:Eg.
+          -- destruct fg as [|fg']; [discriminate|].
+             destruct (g_fill_one fg' gm (rev macro) ((n, v) :: o)) as [o2|] eqn:E2; [|discriminate].
+             assert (S1 : sub op o2).
+             { eapply sub_trans; [exact Hsub|]. eapply sub_trans; [apply sub_cons|]. eapply g_sub, E2. }
+             destruct (IHl _ _ Hg op rest S1) as [k2 Hk2].
+             destruct (IHf fg' ltac:(lia) _ _ _ E2 ((n, v) :: o) (filter (unfilled op) l ++ rest) (sub_refl _))
+               as [k1 Hk1].
+             exists (S (k1 + k2)). intros f r H.
+             change (S (k1 + k2) + f) with (S (k1 + k2 + f)). rewrite x_step, Eo, Ev. cbn [andb].
+             rewrite Hn. destruct macro as [|a macro'].
+             ++ cbn [is_nil negb]. cbn [rev g_fill_one] in E2. rewrite g_nil in E2. injection E2 as <-.
+                apply (x_mono M (k2 + f)); [apply Hk2, H | lia].
+             ++ cbn [is_nil negb]. rewrite filter_rev. rewrite <- Nat.add_assoc. apply Hk1, Hk2, H.
+          -- destruct (IHl _ _ Hg op rest (sub_trans _ _ _ Hsub (sub_cons o n v))) as [k Hk].
+             exists (S k). intros f r H. change (S k + f) with (S (k + f)). rewrite x_step, Eo, Ev. cbn [andb].
+             rewrite Hn. cbn [is_nil negb]. apply Hk, H.
+        * destruct (IHl _ _ Hg op rest (sub_trans _ _ _ Hsub (sub_cons o n v))) as [k Hk].
+          exists (S k). intros f r H. change (S k + f) with (S (k + f)). rewrite x_step, Eo, Ev. cbn [andb].
+          apply Hk, H.
+  Qed.
+End Fill.
+
+(* ---- termination of the stack machine --------------------------------------------------------------- *)
+Section Weight.
+  Variable M : mtable.
+  Definition w (M' : mtable) (o : filled) : nat :=
+    fold_right (fun e acc => ((if is_filled o (fst e) then 0 else length (lookup M (fst e))) + acc)%nat) O M'.
+
+  Lemma w_le M' o n v : w M' ((n, v) :: o) <= w M' o.
+  Proof.
+    induction M' as [|e M' IH]; [apply le_n|]. cbn [w fold_right]. fold (w M' ((n, v) :: o)). fold (w M' o).
+    rewrite is_filled_cons. destruct (bytes_eqb n (fst e)); cbn [orb]; destruct (is_filled o (fst e)); lia.
+  Qed.
+
+  Lemma w_drop M' o n v : is_filled o n = false ->
+    (exists e, In e M' /\ bytes_eqb (fst e) n = true) ->
+    w M' ((n, v) :: o) + length (lookup M n) <= w M' o.
+  Proof.
+    intros Hn. induction M' as [|e M' IH]; intros [e0 [Hin He0]]; [destruct Hin|].
+    cbn [w fold_right]. fold (w M' ((n, v) :: o)). fold (w M' o). rewrite is_filled_cons.
+    destruct (bytes_eqb (fst e) n) eqn:E.
+    - apply bytes_eqb_eq in E. rewrite E, bytes_eqb_refl, Hn. cbn [orb]. pose proof (w_le M' o n v). lia.
+    - destruct Hin as [-> | Hin]; [congruence|].
+      specialize (IH (ex_intro _ e0 (conj Hin He0))).
+      destruct (bytes_eqb n (fst e)); cbn [orb]; destruct (is_filled o (fst e)); lia.
+  Qed.
+
+  Lemma lookup_in M' n : lookup M' n <> [] -> exists e, In e M' /\ bytes_eqb (fst e) n = true.
+  Proof.
+    induction M' as [|[k a] M' IH]; cbn [lookup]; [congruence|].
+    destruct (bytes_eqb k n) eqn:E; intros H.
+    - exists (k, a). split; [left; reflexivity | exact E].
+    - destruct (IH H) as [e [Hin He]]. exists e. split; [right; exact Hin | exact He].
+  Qed.
+
+  Lemma w_table M' o : w M' o <= fold_right (fun e acc => (length (lookup M (fst e)) + acc)%nat) O M'.
+  Proof.
+    induction M' as [|e M' IH]; [apply le_n|]. cbn [w fold_right]. fold (w M' o).
+    destruct (is_filled o (fst e)); lia.
+  Qed.
+
+  Lemma filter_length_le {A} (P : A -> bool) l : length (filter P l) <= length l.
+  Proof. induction l as [|x l IH]; [apply le_n|]. cbn [filter]. destruct (P x); cbn [length]; lia. Qed.
+
+  Lemma x_total : forall f s o, length s + w M o < f -> exists r, x_run f M s o = Some r.
+  Proof.
+    induction f as [|f IH]; intros s o H; [lia|].
+    destruct s as [|[n v] rest]; [eexists; reflexivity|].
+    cbn [length] in H. cbn [x_run].
+    destruct (is_filled o n) eqn:Eo.
+    - apply IH. lia.
+    - destruct (is_set_state v && negb (is_nil (lookup M n))) eqn:Ex.
+      + apply IH. rewrite app_length, rev_length.
+        pose proof (filter_length_le (unfilled ((n, v) :: o)) (lookup M n)).
+        assert (Hne : lookup M n <> []).
+        { apply Bool.andb_true_iff in Ex. destruct Ex as [_ Ex]. destruct (lookup M n); [discriminate|congruence]. }
+        pose proof (w_drop M o n v Eo (lookup_in M n Hne)). lia.
+      + apply IH. pose proof (w_le M o n v). lia.
+  Qed.
+End Weight.
+
+(* ---- termination of git's recursion ------------------------------------------------------------------- *)
+Section Count.
+  Variable defs : list (bytes * list assignment).
+  Definition cnt (o : filled) : nat := length (filter (fun e => negb (is_filled o (fst e))) defs).
+
+  Lemma cnt_sub_gen (d : list (bytes * list assignment)) o o' : sub o o' ->
+    length (filter (fun e => negb (is_filled o' (fst e))) d) <= length (filter (fun e => negb (is_filled o (fst e))) d).
+  Proof.
+    intros Hs. induction d as [|e d IH]; [apply le_n|]. cbn [filter].
+    destruct (is_filled o (fst e)) eqn:E.
+    - rewrite (Hs _ E). exact IH.
+    - cbn [negb]. destruct (is_filled o' (fst e)); cbn [negb length]; lia.
+  Qed.
+
+  Lemma cnt_drop_gen (d : list (bytes * list assignment)) o n v : is_filled o n = false ->
+    (exists e, In e d /\ bytes_eqb (fst e) n = true) ->
+    S (length (filter (fun e => negb (is_filled ((n, v) :: o) (fst e))) d))
+    <= length (filter (fun e => negb (is_filled o (fst e))) d).
+  Proof.
+    intros Hn. induction d as [|e d IH]; intros [e0 [Hin He0]]; [destruct Hin|].
+    cbn [filter]. rewrite is_filled_cons.
+    destruct (bytes_eqb (fst e) n) eqn:E.
+    - apply bytes_eqb_eq in E. rewrite E, bytes_eqb_refl, Hn. cbn [orb negb length].
+      pose proof (cnt_sub_gen d o ((n, v) :: o) (sub_cons o n v)). lia.
+    - destruct Hin as [-> | Hin]; [congruence|].
+      specialize (IH (ex_intro _ e0 (conj Hin He0))).
+      destruct (bytes_eqb n (fst e)); cbn [orb]; destruct (is_filled o (fst e)); cbn [negb length]; lia.
+  Qed.
+
+  Variable gm : bytes -> option (list assignment).
+  Hypothesis Hdefs : forall n a, gm n = Some a -> exists e, In e defs /\ bytes_eqb (fst e) n = true.
+
+  Lemma g_total : forall fg l o, cnt o <= fg -> exists o', g_fill_one fg gm l o = Some o'.
+  Proof.
+    intros fg. induction fg as [fg IHf] using lt_wf_ind.
+    intros l. induction l as [|[n v] l IHl]; intros o Hc.
+    - rewrite g_nil. eexists; reflexivity.
+    - rewrite g_cons. destruct (is_filled o n) eqn:Eo; [apply IHl, Hc|].
+      assert (Hc1 : cnt ((n, v) :: o) <= fg).
+      { pose proof (cnt_sub_gen defs o ((n, v) :: o) (sub_cons o n v)). unfold cnt in *. lia. }
+      destruct (is_set_state v); [|apply IHl, Hc1].
+      destruct (gm n) as [macro|] eqn:Eg; [|apply IHl, Hc1].
+      pose proof (cnt_drop_gen defs o n v Eo (Hdefs _ _ Eg)) as Hd. fold (cnt ((n, v) :: o)) in Hd. fold (cnt o) in Hd.
+      destruct fg as [|f]; [lia|].
+      destruct (IHf f ltac:(lia) (rev macro) ((n, v) :: o) ltac:(lia)) as [o2 E2]. rewrite E2.
+      apply IHl. pose proof (cnt_sub_gen defs _ _ (g_sub gm _ _ _ _ E2)). unfold cnt in *. lia.
+  Qed.
+End Count.
+
+(* ---- fill_attributes = fill_one ---------------------------------------------------------------------------- *)
+Section FillEq.
+  Variable M : mtable.
+  Variable gm : bytes -> option (list assignment).
+  Variable defs : list (bytes * list assignment).
+  Hypothesis HM : forall n, lookup M n = match gm n with Some a => a | None => [] end.
+  Hypothesis Hdefs : forall n a, gm n = Some a -> exists e, In e defs /\ bytes_eqb (fst e) n = true.
+
+  Lemma cnt_le_length o : cnt defs o <= length defs.
+  Proof. unfold cnt. apply filter_length_le. Qed.
+
+  Lemma fill_is_fill_one attrs o :
+    exists o', fill_attributes M attrs o = Some o' /\ g_fill_one (S (length defs)) gm (rev attrs) o = Some o'.
+  Proof.
+    destruct (g_total defs gm Hdefs (S (length defs)) (rev attrs) o) as [o' Hg].
+    { pose proof (cnt_le_length o). lia. }
+    exists o'. split; [|exact Hg].
+    destruct (sim M gm HM _ _ _ _ Hg o [] (sub_refl o)) as [k Hk].
+    specialize (Hk 1 o' eq_refl). rewrite app_nil_r in Hk.
+    unfold fill_attributes. rewrite filter_rev.
+    destruct (x_total M (fill_fuel M attrs) (filter (unfilled o) (rev attrs)) o) as [r Hr].
+    { unfold fill_fuel. pose proof (filter_length_le (unfilled o) (rev attrs)). rewrite rev_length in *.
+      pose proof (w_table M M o). unfold table_weight. lia. }
+    rewrite Hr. f_equal.
+    pose proof (x_mono M _ _ _ _ Hr (fill_fuel M attrs + (k + 1)) ltac:(lia)) as H1.
+    pose proof (x_mono M _ _ _ _ Hk (fill_fuel M attrs + (k + 1)) ltac:(lia)) as H2.
+    congruence.
+  Qed.
+
+  Lemma g_all_filled : forall fg l o, existsb (unfilled o) l = false -> g_fill_one fg gm l o = Some o.
+  Proof.
+    intros fg l. induction l as [|[n v] l IH]; intros o H; [apply g_nil|].
+    cbn [existsb] in H. apply Bool.orb_false_iff in H. destruct H as [H1 H2].
+    unfold unfilled in H1. cbn [fst] in H1. apply Bool.negb_false_iff in H1.
+    rewrite g_cons, H1. apply IH, H2.
+  Qed.
+
+  Lemma existsb_rev {A} (P : A -> bool) l : existsb P (rev l) = existsb P l.
+  Proof.
+    induction l as [|x l IH]; [reflexivity|]. cbn [rev existsb]. rewrite existsb_app, IH. cbn [existsb].
+    rewrite Bool.orb_false_r. apply Bool.orb_comm.
+  Qed.
+
+  (* one pattern list *)
+  Lemma search_maps_is_fill matchf : forall rmaps o,
+    exists o', search_maps matchf M rmaps o = Some o' /\
+               g_fill_maps (S (length defs)) matchf gm rmaps o = Some o'.
+  Proof.
+    induction rmaps as [|m rmaps IH]; intros o.
+    - exists o. split; reflexivity.
+    - destruct m as [n a|p attrs]; cbn [search_maps g_fill_maps]; [apply IH|].
+      destruct (matchf p).
+      + destruct (has_unspecified o attrs) eqn:Eh; cbn [andb].
+        * destruct (fill_is_fill_one attrs o) as [o1 [H1 H2]]. rewrite H1, H2. apply IH.
+        * rewrite (g_all_filled _ (rev attrs) o).
+          -- apply IH.
+          -- rewrite existsb_rev. exact Eh.
+      + rewrite Bool.andb_false_r. apply IH.
+  Qed.
+End FillEq.
+
+(* ---- 4. the whole stack ---------------------------------------------------------------------------------- *)
+Section Stack.
+  Variable M : mtable.
+  Variable gm : bytes -> option (list assignment).
+  Variable defs : list (bytes * list assignment).
+  Hypothesis HM : forall n, lookup M n = match gm n with Some a => a | None => [] end.
+  Hypothesis Hdefs : forall n a, gm n = Some a -> exists e, In e defs /\ bytes_eqb (fst e) n = true.
+
+  Lemma search_list_is_fill cf isdir path l o :
+    exists o', search_list M cf isdir path l o = Some o' /\
+               g_fill_list (S (length defs)) gm cf isdir path l o = Some o'.
+  Proof.
+    unfold search_list, g_fill_list.
+    destruct (strip_base (l_base l) cf path (basename_pos path)) as [[rel bpos]|].
+    - apply (search_maps_is_fill M gm defs HM Hdefs).
+    - exists o. split; reflexivity.
+  Qed.
+
+  Lemma search_lists_is_fill cf isdir path : forall lists o,
+    exists o', search_lists M cf isdir path lists o = Some o' /\
+               g_fill (S (length defs)) gm cf isdir path lists o = Some o'.
+  Proof.
+    induction lists as [|l lists IH]; intros o.
+    - exists o. split; reflexivity.
+    - cbn [search_lists g_fill]. destruct (search_list_is_fill cf isdir path l o) as [o1 [H1 H2]].
+      rewrite H1, H2. apply IH.
+  Qed.
+End Stack.
+
+Definition dirs_no_macros (s : setup) : Prop := forall d, In d (s_dirs s) -> macro_defs (l_maps d) = [].
+
+Lemma macro_defs_filtered ms : macro_defs (filter (fun m => negb (is_macro_mapping m)) ms) = [].
+Proof.
+  induction ms as [|m ms IH]; [reflexivity|]. cbn [filter]. destruct m as [n a|p a]; cbn [is_macro_mapping negb].
+  - exact IH.
+  - unfold macro_defs. cbn [flat_map app]. exact IH.
+Qed.
+
+Lemma make_setup_no_macros global info files path : dirs_no_macros (make_setup global info files path).
+Proof.
+  intros d Hd. cbn [make_setup s_dirs] in Hd. apply in_map_iff in Hd. destruct Hd as [x [<- _]].
+  destruct (find_file files x); [|reflexivity]. cbn [add_patterns l_maps]. apply macro_defs_filtered.
+Qed.
+
+Lemma flat_map_nil {A B} (f : A -> list B) l : (forall x, In x l -> f x = []) -> flat_map f l = [].
+Proof.
+  induction l as [|x l IH]; intros H; [reflexivity|]. cbn [flat_map]. rewrite (H x (or_introl eq_refl)).
+  apply IH. intros y Hy. apply H. right. exact Hy.
+Qed.
+
+Lemma tops_defs s : dirs_no_macros s ->
+  flat_map (fun ms => rev (macro_defs ms)) (map l_maps (search_order s)) =
+  rev (macro_defs (l_maps (s_builtin s)) ++ macro_defs (l_maps (s_global s)) ++
+       macro_defs (l_maps (s_root s)) ++ macro_defs (l_maps (s_info s))).
+Proof.
+  intros Hd. unfold search_order. cbn [map flat_map]. rewrite map_app, flat_map_app. cbn [map flat_map].
+  rewrite (flat_map_nil _ (map l_maps (rev (s_dirs s)))).
+  - rewrite !rev_app_distr, app_nil_r. cbn [app]. rewrite <- !app_assoc. reflexivity.
+  - intros ms Hin. apply in_map_iff in Hin. destruct Hin as [d [<- Hin]]. apply in_rev in Hin.
+    rewrite (Hd d Hin). reflexivity.
+Qed.
+
+Lemma macros_of_is_set_all s :
+  macros_of s = set_all [] (macro_defs (l_maps (s_builtin s)) ++ macro_defs (l_maps (s_global s)) ++
+                            macro_defs (l_maps (s_root s)) ++ macro_defs (l_maps (s_info s))).
+Proof.
+  unfold macros_of. cbn [fold_left]. rewrite !update_is_set_all, !set_all_app. reflexivity.
+Qed.
+
+(* the table of the collection is determine_macros *)
+Lemma macro_table_is_determine_macros s : dirs_no_macros s -> forall n,
+  lookup (macros_of s) n =
+  match g_macro (map l_maps (search_order s)) n with Some a => a | None => [] end.
+Proof.
+  intros Hd n. rewrite macros_of_is_set_all, lookup_set_all. unfold g_macro. rewrite (tops_defs s Hd).
+  unfold keyb. destruct (find _ _) as [e|]; reflexivity.
+Qed.
+
+Lemma g_macro_in tops n a : g_macro tops n = Some a ->
+  exists e, In e (flat_map macro_defs tops) /\ bytes_eqb (fst e) n = true.
+Proof.
+  unfold g_macro. destruct (find _ _) as [e|] eqn:E; [|discriminate]. intros _.
+  apply find_some in E. destruct E as [Hin He]. exists e. split; [|exact He].
+  apply in_flat_map in Hin. destruct Hin as [ms [Hms Hin]]. apply in_flat_map. exists ms. split; [exact Hms|].
+  apply in_rev. exact Hin.
+Qed.
+
+Lemma setup_attrs_are_gits s cf isdir path : dirs_no_macros s ->
+  let tops := map l_maps (search_order s) in
+  exists o, search_lists (macros_of s) cf isdir path (search_order s) [] = Some o /\
+            g_fill (S (length (flat_map macro_defs tops))) (g_macro tops) cf isdir path (search_order s) [] = Some o.
+Proof.
+  intros Hd tops.
+  apply (search_lists_is_fill (macros_of s) (g_macro tops) (flat_map macro_defs tops)).
+  - apply macro_table_is_determine_macros, Hd.
+  - apply g_macro_in.
+Qed.
+
+Lemma matching_attributes_is_git global info files cf path isdir :
+  exists o, matching_attributes global info files cf path isdir = Some o /\
+            git_attrs global info files cf path isdir = Some o.
+Proof.
+  unfold matching_attributes, git_attrs.
+  apply (setup_attrs_are_gits (make_setup global info files path) cf isdir path).
+  apply make_setup_no_macros.
+Qed.
+
+Lemma fill_terminates M attrs o : fill_attributes M attrs o <> None.
+Proof.
+  unfold fill_attributes.
+  destruct (x_total M (fill_fuel M attrs) (rev (filter (unfilled o) attrs)) o) as [r Hr].
+  - unfold fill_fuel. rewrite rev_length. pose proof (filter_length_le (unfilled o) attrs).
+    pose proof (w_table M M o). unfold table_weight. lia.
+  - rewrite Hr. discriminate.
+Qed.
